@@ -741,6 +741,7 @@ func TestVerifC33(t *testing.T) {
 			e.Close()
 		}
 	}()
+	r.Set("rule", "part 1 (totality): one evaluation = one generated query text x one evaluation mode (instant time or range start/end/step) x one engine configuration; distinct_nontrivial = distinct (query, outcome class) that got past query construction. part 2 (TestVerifC33Pairs): every ordered pair (A;B) of the independence pool run in one engine with maximal pool reuse, B compared with its fresh-engine outcome (pairs_checked, pair_pool_size). part 3 (TestVerifC33Race): concurrent evaluation, sampled only.")
 	r.Assume("range queries use a positive step (the HTTP API rejects step <= 0 before reaching the engine)")
 	r.Assume("an error is internal iff its text matches the runtime-fault wrapper of evaluator.recover, a Go runtime fault, or one of the 'cannot happen' panic texts of promql/*.go; every other error class that was accepted is listed in coverage.accepted_error_classes")
 	r.Assume("sequential independence is decided with the engine's sync.Pools emptied (two GC cycles) before each pair and forced to LIFO reuse (GOMAXPROCS=1, GC off during the pair); concurrent evaluation is only sampled by the race part")
@@ -851,7 +852,6 @@ func TestVerifC33(t *testing.T) {
 		}
 	}
 
-	r.Set("rule", "part 1 (totality): one evaluation = one generated query text x one evaluation mode (instant time or range start/end/step) x one engine configuration; distinct_nontrivial = distinct (query, outcome class) that got past query construction. part 2 (TestVerifC33Pairs): every ordered pair (A;B) of the independence pool run in one engine with maximal pool reuse, B compared with its fresh-engine outcome (pairs_checked, pair_pool_size). part 3 (TestVerifC33Race): concurrent evaluation, sampled only.")
 }
 
 // TestVerifC33Pairs is part 2; it runs in its own process so that the two GC cycles that empty the
